@@ -99,7 +99,11 @@ class World:
         return self.idx.get(id(node), -99)   # -99: an object the harness never saw
 
     # ---------------------------------------------------------------- construction
+    explicit_ids = None        # optional list: ids handed to the constructor by create(), in order (callers may choose their ids)
+
     def new(self, name, id=None):
+        if id is None and self.explicit_ids:
+            id = self.explicit_ids[len(self.nodes) % len(self.explicit_ids)] if len(self.nodes) < len(self.explicit_ids) else None
         return self.track(Node(name) if id is None else Node(name, id=id))
 
     @classmethod
@@ -147,7 +151,7 @@ class World:
                 raise MachineryError(f"cannot establish namespace maps through the API: want {want} got {got}")
         elif "ns" in state:
             for i in range(n):
-                w.n(i + 1).nsmap = {q: u for q, u in state["ns"][i]}
+                w.n(i + 1).nsmap = {(None if q == "~default" else q): u for q, u in state["ns"][i]}      # "~default": the key None (default namespace)
         if "store" in state and not ids:
             keep = set(state["store"])
             for i in range(n):
@@ -178,7 +182,7 @@ class World:
         if "extras" in fields:
             st["extras"] = [[[k, self.atoms.atom(v)] for k, v in x.extras.items()] for x in N]
         if "store" in fields:
-            st["store"] = [i + 1 for i, x in enumerate(N) if Node.store.get(x.id) is x]
+            st["store"] = [i + 1 for i, x in enumerate(N) if Node.get_node_instance(x.id) is x]      # retrievable BY ID through the public lookup
         return st
 
     def mc_atoms(self, texts):
